@@ -314,13 +314,20 @@ where
     /// ```
     pub fn disconnect(&self, other: &K) -> Result<E, Error> {
         match self.find_outbound(other) {
-            Some(other) => match self.inner.2.write().unwrap().remove_outbound(other.key()) {
-                Ok(edge) => {
-                    other.inner.2.write().unwrap().remove_inbound(self.key())?;
-                    Ok(edge)
+            Some(other) => {
+                // Release the lock of `self` before locking `other`: for a
+                // self-loop they are the same lock, and two threads
+                // disconnecting in opposite directions would otherwise wait
+                // for each other.
+                let removed = self.inner.2.write().unwrap().remove_outbound(other.key());
+                match removed {
+                    Ok(edge) => {
+                        other.inner.2.write().unwrap().remove_inbound(self.key())?;
+                        Ok(edge)
+                    }
+                    Err(_) => Err(Error::EdgeNotFound),
                 }
-                Err(_) => Err(Error::EdgeNotFound),
-            },
+            }
             None => Err(Error::EdgeNotFound),
         }
     }
